@@ -59,6 +59,23 @@ CLAIMS["C09"] = (
     "node-set arguments (first node, empty set).",
     CLAIMS["C01"][2], "DESIGN.md 4/C09")
 
+CLAIMS["C04"] = (
+    "TLA+ API session machine (XApi.tla: purity of Select/Evaluate, iterator protocol) - TLC enumerates every call "
+    "history up to L calls (MC_Hist.tla); each is executed on ONE shared compiled expression; the recorded sessions are "
+    "validated by TLC against XApi (XApiBatch.tla), fresh evaluations against the denotation",
+    "Exhaustive exploration of call histories (Select/Evaluate/MoveNext/Current, interleaved iterators abandoned after "
+    "every prefix, contexts in the same and in other documents) for a pool of the engine's stateful constructs, incl. "
+    "operands evaluated in place; every reply must equal the reply of a freshly compiled expression.",
+    CLAIMS["C01"][2], "DESIGN.md 4/C04")
+CLAIMS["C12"] = (
+    "TLA+ API session machine (XApi.tla) with mode seq: flat paths must deliver exactly the denotation in document "
+    "order; TLC-enumerated histories with extra MoveNext calls, Current, Evaluate-vs-Select, count(e), reverse(e) are "
+    "executed and the recorded sessions validated by TLC",
+    "Exhaustive over all flat paths of 1-2 (thorough 3) child/attribute/self steps, //name, descendant::name, with the "
+    "C02/C03 predicates, on the catalogue and value documents from seeded contexts; protocol relations for every "
+    "node-set expression of the C04 pool.",
+    CLAIMS["C01"][2], "DESIGN.md 4/C12")
+
 NOT_YET = "check not built yet in this round (see DESIGN.md section 9 for the construction order)"
 
 
